@@ -294,6 +294,9 @@ func runClientHistory(p *peers, kind string, ops []cOp, idx int) histResult {
 					res.handshake = true
 				case r == "alreadyInitialized":
 					violate("lifecycle:initialize-refused-while-uninitialized:"+recv, "Initialize refused as already initialized although no handshake is in force", i, fmt.Sprint(e))
+				case op.E == "ok" && !(transportClosed && kind != "streamable"):
+					// network and peer behave, nothing closed the transport: a fresh handshake must work, whatever earlier failed ones left behind
+					violate("lifecycle:handshake-fails-in-benign-environment:"+kind, "Initialize fails although network and server behave and the client was not closed (after earlier failed handshakes a fresh one must work)", i, map[string]any{"error": fmt.Sprint(e), "wire": wire})
 				}
 			}
 		case "req", "roots":
